@@ -6,7 +6,7 @@ EXTENDS Integers, Sequences, FiniteSets, SequencesExt, TLC
 CONSTANTS MaxArg,      \* integer programs run for arg \in 0..MaxArg
           MaxNodes     \* tree program: every recursive tree with <= MaxNodes nodes
 
-IntProgs == <<"fact", "evenodd", "sum", "tail", "nest", "ref">>
+IntProgs == <<"fact", "evenodd", "sum", "tail", "nest", "ref", "lend", "lendt">>
 PROGS == {IntProgs[zi] : zi \in 1..Len(IntProgs)} \cup {"tree"}
 
 (* A tree with nodes 1..zn (root 1): parent vector zp with zp[k] < k; the      *)
@@ -23,6 +23,11 @@ TREES == SetToSeq(TreeSet)
 
 Kids(ztr, zid) == TREES[ztr].kids[zid]
 TailOf(ztr, zid) == TREES[ztr].tail[zid]
+
+(* lend, lendt: a reference to a variable of procedure Lend is the variable's name; *)
+(* dereferencing selects the owner's current variable (zda, zdw = the current        *)
+(* values of Lend's local da and parameter dw)                                       *)
+Deref(zr, zda, zdw) == IF zr = "da" THEN zda ELSE zdw
 
 ArgsOf(zprog) == IF zprog = "tree" THEN 1..Len(TREES) ELSE 0..MaxArg
 =============================================================================
